@@ -193,7 +193,7 @@ func isStatusType(t types.Type) bool {
 }
 
 func c15(c *core.Ctx, r *core.Report) {
-	r.Explain("R15.grow: every write to the ordering-relevant stores of an escape graph (EscapeGraph.edges, its inner edge maps, EscapeGraph.status) in package escape is enumerated from SSA and must have monotone shape: inner edge flags are written as old|new, status writes are guarded by a strict > comparison against the old status or by key absence, outer edge-map entries are only installed (fresh empty map) under key absence; writes of any other shape and every delete are allowed only on a *fresh* graph (created by NewEmptyEscapeGraph/Clone/CloneReachable in the same function, or a parameter that every repository caller binds to such a graph - computed as a fixpoint over call sites). R15.merge: Merge is built only from AddEdge/AddNode/MergeNodeStatus over all edges and statuses of its argument; Matches and LessEqual compare both edges and status. R15.selfcheck (info): whether the monotonicity self-check is enabled.")
+	r.Explain("R15.grow: every write to the ordering-relevant stores of an escape graph (EscapeGraph.edges, its inner edge maps, EscapeGraph.status) in package escape is enumerated from SSA and must have monotone shape: inner edge flags are written as old|new, status writes are guarded by a strict > comparison against the old status or by key absence, outer edge-map entries are only installed (fresh empty map) under key absence; writes of any other shape and every delete are allowed only on a *fresh* graph (created by NewEmptyEscapeGraph/Clone/CloneReachable in the same function, or a parameter that every repository caller binds to such a graph - computed as a fixpoint over call sites). R15.merge: Merge is built only from AddEdge/AddNode/MergeNodeStatus over all edges and statuses of its argument; Matches and LessEqual compare both edges and status. R15.matches: Matches compares the CONTENTS of edges and of status of the two graphs (reflect.DeepEqual / maps.Equal on the like-named fields of receiver and argument, or a range over one with lookups in the other; len() alone is not a comparison). R15.selfcheck (info): whether the monotonicity self-check is enabled.")
 	r.NotDecided("the algebraic laws for all graph pairs and monotonicity of Call instantiation / load-node creation.")
 	x := &c15ctx{c: c, freshParam: map[*ssa.Parameter]bool{}}
 	// candidate params
